@@ -61,10 +61,21 @@ def run_table(ck: Check, rules):
         field = Emulsion([DiffuseDroplet(np.array(c, float), R, 1.0 if name != "c2tiny" else 0.1) for c in centres if c != "tiny"]).get_phasefield(grid)
         if "tiny" in centres:
             field.data[3, 12] = field.data[4, 12] = 1.0
-        for modes, width, refine, rule in itertools.product(MODES, [None, 0.0, 0.75], [False, True], rules):
-            case = {"grid": name, "family": fam, "dim": grid.dim, "modes": modes, "interface_width": width, "refine": refine, "threshold": rule}
+        # the same droplets with a SHARP interface: a binary image (two distinct values) is as valid an input as a smooth one
+        from droplets.droplets import SphericalDroplet
+
+        sharp = Emulsion([SphericalDroplet(np.array(c, float), R) for c in centres if c != "tiny"]).get_phasefield(grid)
+        if "tiny" in centres:
+            sharp.data[3, 12] = sharp.data[4, 12] = 1.0
+        smooth = field
+        combos = [("smooth", *t) for t in itertools.product(MODES, [None, 0.0, 0.75], [False, True], rules)]
+        combos += [("sharp", *t) for t in itertools.product(MODES, [None, 0.0, 0.75], [False, True], [0.5 if 0.5 in rules else rules[0]])]
+        for image, modes, width, refine, rule in combos:
+            field = smooth if image == "smooth" else sharp
+            case = {"grid": name, "family": fam, "dim": grid.dim, "modes": modes, "interface_width": width, "refine": refine, "threshold": rule, "image": image}
+            ck.count(f"image.{image}")
             sig = {"family": fam, "dim": grid.dim, "modes_positive": modes > 0, "refine": refine, "width": width is not None}
-            ck.case((name, modes, width, refine, rule))
+            ck.case((name, image, modes, width, refine, rule))
             try:
                 em = locate_droplets(field, threshold=rule, modes=modes, interface_width=width, refine=refine)
                 got = ("ok", observe(em, grid))
